@@ -18,7 +18,6 @@ package main
 import (
 	"encoding/json"
 	"fmt"
-	"os"
 	"time"
 
 	"verif/lib"
@@ -151,14 +150,13 @@ func run(c *lib.Ctx) {
 		name string
 		f    func(*lib.Ctx)
 	}{{"ranges", runRanges}, {"ordset", runOrdset}, {"sortlist", runSortlist}, {"shmap", runShmap},
-		{"lrucache", runLru}, {"cache", runCache}, {"bloom", runBloom},
-		{"roaring", runRoaring}} // roaring last: single goroutine (its block pool is process global)
-	only := os.Getenv("C39_ONLY") // development aid: run one part
+		{"cache", runCache}, {"bloom", runBloom},
+		// the two utilities with classified defect candidates come last, so that
+		// their reports (the run stops after 5) do not cut the others short;
+		// roaring runs in a single goroutine (its block pool is process global)
+		{"lrucache", runLru}, {"roaring", runRoaring}}
 	walls := map[string]float64{}
 	for _, p := range parts {
-		if only != "" && only != p.name {
-			continue
-		}
 		t := time.Now()
 		p.f(c)
 		walls[p.name] = float64(int(time.Since(t).Seconds()*10)) / 10
